@@ -150,7 +150,30 @@ static void exec(const std::string &line) {
     if (settle0 && !N->isOpen()) C.fail("harness:not-open", "node did not open");
     C.out("ok"); return;
   }
+  if (w[0] == "tpseq" && w.size() == 3) { endCase(); delete N; N = nullptr; }   // closes the running case first: opening the scratch node moves the process-wide scheduler sync offset
   C.op("%s", line.c_str()); C.count("op_" + w[0]); caseDesc += line; caseDesc += ';';
+  if (w[0] == "tpseq" && w.size() == 3) {
+    // C01, self-contained on a scratch node (the case's node and the clock are left as they are): fast-packet messages of one declared
+    // transmit PGN keep consecutive sequence ids when transport-protocol sends of the same PGN (one started, one refused because a
+    // transfer is pending) happen in between - "successive fast-packet messages of one declared transmit PGN"
+    uint64_t keepNow = g_now; int nd = atoi(w[1].c_str()); unsigned long pgn = strtoul(w[2].c_str(), 0, 10);
+    if (nd < 1) nd = 1; if (nd > 3) nd = 3;
+    Node *S = new Node(); S->SetDeviceCount(nd);
+    for (int i = 0; i < nd; i++) S->SetDeviceInformation(3000 + 7 * i, 130 + i, 25, 2000 + i, 4, i);
+    S->SetMode(tNMEA2000::N2km_ListenAndNode, 40); S->EnableForward(false);
+    static const unsigned long one[2][2] = {{0, 0}, {0, 0}}; (void)one;
+    std::vector<unsigned long> *lst = new std::vector<unsigned long>{pgn, 0}; S->ExtendTransmitMessages(lst->data(), nd - 1);
+    openAndSettle(*S, 700); S->sent.clear();
+    int d = nd - 1; std::vector<int> ids;
+    auto fp = [&]() { tN2kMsg m; m.SetPGN(pgn); m.Priority = 6; m.Destination = 255; for (int i = 0; i < 20; i++) m.AddByte((unsigned char)i);
+      S->sent.clear(); bool r = S->SendMsg(m, d); int id = -1; for (auto &f : S->sent) if (((f.id >> 8) & 0x1ffff) == (pgn & 0x1ffff) || ((f.id >> 8) & 0x1ff00) == (pgn & 0x1ff00)) { id = f.buf[0] >> 5; break; }
+      if (!r || id < 0) C.fail("harness:tpseq", "fast-packet send of %lu failed on the scratch node", pgn); ids.push_back(id); };
+    auto tp = [&]() { tN2kMsg m; m.SetPGN(pgn); m.Priority = 6; m.Destination = 255; for (int i = 0; i < 20; i++) m.AddByte((unsigned char)(100 + i)); m.SetIsTPMessage(); S->SendMsg(m, d); };
+    fp(); tp(); fp(); tp(); tp(); fp(); fp();
+    for (size_t i = 1; i < ids.size(); i++) if (ids[i - 1] >= 0 && ids[i] >= 0 && ids[i] != (ids[i - 1] + 1) % 8) {
+      C.fail("C01:sequence:tp-interleaved", "PGN %lu device %d: sequence id %d follows %d although only transport-protocol sends of the PGN happened in between", pgn, d, ids[i], ids[i - 1]); break; }
+    g_now = keepNow; C.count("tpseq_checks"); C.out("ok"); return;   // the scratch node is leaked on purpose (tNMEA2000 has no destructor for its buffers)
+  }
   if (!N) { C.out("bad-op"); return; }
   auto listOf = [&](size_t from) { keep.emplace_back(); for (size_t i = from; i < w.size(); i++) keep.back().push_back(strtoul(w[i].c_str(), 0, 10)); keep.back().push_back(0); return keep.back().data(); };
   if (w[0] == "txlist") { int d = atoi(w[1].c_str()); const unsigned long *p = listOf(2); N->ExtendTransmitMessages(p, d); if (d >= 0 && d < nDev) for (size_t i = 2; i < w.size(); i++) declaredTx[d].insert(strtoul(w[i].c_str(), 0, 10)); C.out("ok"); return; }
@@ -411,6 +434,7 @@ int main(int argc, char **argv) {
   }
   // (3) random cases with back-pressure
   int ncases = C.thorough ? 1500 : 150;
+  for (int nd = 1; nd <= 3; nd++) for (unsigned long p : {129029UL, 126996UL, 130816UL, 129540UL}) { char tb[64]; snprintf(tb, sizeof tb, "tpseq %d %lu", nd, p); exec(tb); }
   for (int i = 0; i < ncases; i++) { randomCase(R, flavor); if (i % 3 == 0) openingCase(R, flavor); if (i % 15 == 0) seqExhaustCase(R, flavor); }
   for (int i = 0; i < (C.thorough ? 6 : 1); i++) bigQueueCase(R, flavor);
   for (int k = 0; k < 3; k++) { sentinelCase(R, flavor, k, false); sentinelCase(R, flavor, k, true); }
